@@ -348,7 +348,7 @@ def check_options():
 def oracle(ctx, hints, broken):
     viol, n = [], 0
     deep = ctx['tier'] == 'thorough' or bool(broken)
-    for f in (lambda: check_dag(ctx['rng']), lambda: check_shift_chains(ctx['rng'], 80 if deep else 12), lambda: check_jacdict_block(ctx['rng']), check_options, M.check_small_units):
+    for f in (lambda: check_dag(ctx['rng']), lambda: check_shift_chains(ctx['rng'], 80 if deep else 12), lambda: check_jacdict_block(ctx['rng']), check_options, M.check_small_units, lambda: M.check_remap_next_to_plain(False)):
         try:
             v, k = f()
         except Exception as ex:
@@ -364,5 +364,8 @@ def oracle(ctx, hints, broken):
 
 
 def replay(rp):
+    if (rp.get('input') or {}).get('kind') == 'remap-next-to-plain':
+        v = [x for x in M.check_remap_next_to_plain(False)[0] if x['input'].get('call') == rp['input'].get('call')]
+        return v[0] if v else None
     v = check_dag(C.Rng(0))[0] + check_shift_chains(C.Rng(0), 40)[0] + check_options()[0]
     return v[0] if v else None
